@@ -25,6 +25,9 @@ EXPLANATION = (
     'on any path of its code; that the run-time contents of the recorded '
     'sets are right is not decided.'
     ' R3.5: overwritten foreign files are moved aside (R2.4) into distinct backup slots (R2.6b) and restored last by a rollback that cannot be cut short (R2.3, R2.7).')
+# round 3/4 additions
+EXPLANATION += (
+    ' R3.5 includes the slot encoding (R2.6b) and the hand-off of partially created directories (R14.3).')
 
 
 def _tag(ctx, o):
